@@ -87,6 +87,8 @@ func (m *model) terminal(code int) {
 	m.commit()
 }
 
+var longBody = strings.Repeat("x", 70000)
+
 const (
 	ctJSON = "application/json; charset=utf-8"
 	ctHTML = "text/html; charset=utf-8"
@@ -120,6 +122,18 @@ var allOps = []op{
 	{"R1", "redirect('/m',301)", func(m *model) { m.setHeader("Location", "/m"); m.terminal(301) }},
 	{"N5", "noContent(205)", func(m *model) { m.terminal(205) }},
 	{"K", "status(201)->header('X-B','4')->write('k')", func(m *model) { m.setStatus(201); m.setHeader("X-B", "4"); m.write("k") }},
+	// boundary arguments of the same operations. An empty write is still a body write call:
+	// it is the commit point (net/http: Write([]byte{}) sends the header) although it adds
+	// no byte.
+	{"W0", "write('')", func(m *model) { m.write("") }},
+	{"Wz", "write('0')", func(m *model) { m.write("0") }},
+	{"Ws", "write(\" \\n\")", func(m *model) { m.write(" \n") }},
+	{"Wu", "write('héllo✓')", func(m *model) { m.write("héllo✓") }},
+	{"Wl", "write(str_repeat('x',70000))", func(m *model) { m.write(longBody) }},
+	{"J0", "json([])", func(m *model) { m.setHeader("Content-Type", ctJSON); m.write("[]") }},
+	{"T0", "html('')", func(m *model) { m.setHeader("Content-Type", ctHTML); m.write("") }},
+	{"H0", "header('X-A','')", func(m *model) { m.setHeader("X-A", "") }},
+	{"C0", "cookie('c','',['path'=>'/'])", func(m *model) { m.addHeader("Set-Cookie", "c=") }},
 	// internal: what the onError closure of route /eops does; never enumerated
 	{"S5", "status(500)", func(m *model) { m.setStatus(500) }},
 	{"We", "write('E')", func(m *model) { m.write("E") }},
@@ -127,9 +141,9 @@ var allOps = []op{
 
 const (
 	baseOps = 12 // allOps[:baseOps] is the property's alphabet
-	extOps  = 17 // allOps[:extOps] adds the argument variants
-	opS5    = 17
-	opWe    = 18
+	extOps  = 26 // allOps[:extOps] adds the argument variants
+	opS5    = 26
+	opWe    = 27
 	opRET   = 255 // pseudo step: a layer (handler / middleware) returns -> pending status is committed
 )
 
